@@ -43,7 +43,7 @@ try:
     meta['ran'].append(f'cargo test --workspace --no-fail-fast --offline (fresh worktree of /repo HEAD + patch): {passed} passed, {failed} failed')
     shutil.rmtree(tmp + '/target', ignore_errors=True)
     fired = {}
-    e3 = dict(os.environ, VERIF_REPO=wt, VERIF_NO_EVIDENCE='1', VERIF_CACHE='/var/tmp/nuverif-selftest-cache')
+    e3 = dict(os.environ, VERIF_REPO=wt, VERIF_NO_EVIDENCE='1', VERIF_CACHE=tmp + '/cache')
     for p in props:
         t0 = time.time()
         TR = os.environ.get('VERIF_TOOLS_ROOT', '/verif')   # a frozen snapshot of the tools while /verif is being edited
